@@ -52,6 +52,7 @@ def gen(rng, tier):
         'disc_handler': rng.random() < 0.9,
         'ping': rng.random() < 0.25,
         'send_pauses': rng.random() < 0.5,
+        'catchall': rng.choice([None, None, 'func', 'class']),
     }
     npeers = rng.randrange(1, 4)
     ops = []
@@ -147,7 +148,10 @@ def _run(case, cfg, w):
         event = label[3]
         ns = label[2]
         if event == 'connect':
-            environ = args[1]
+            if ns == '*':
+                ns = args[0]          # catch-all: the namespace comes first
+            environ = [a for a in args
+                       if isinstance(a, dict) and 'sim.conn' in a][0]
             cid = environ['sim.conn'].cid
             beh = behaviours.get((cid, ns), 'accept')
             ev['cid'] = cid
@@ -189,6 +193,20 @@ def _run(case, cfg, w):
             srv.register_namespace(w.make_namespace(
                 ns, events, plan, server='s', coroutine=coroutine, base=base))
 
+    if cfg.get('catchall') == 'func':
+        for evn in events:
+            srv.on(evn, w.make_handler(('s', 'func', '*', evn), plan,
+                                       coroutine), namespace='*')
+    elif cfg.get('catchall') == 'class':
+        base = socketio.AsyncNamespace if w.mode == 'async' \
+            else socketio.Namespace
+        srv.register_namespace(w.make_namespace(
+            '*', events, plan, server='s', coroutine=coroutine, base=base))
+
+    def nargs(e):
+        """Handler arguments without the namespace prefix of catch-alls."""
+        return e['args'][1:] if e['label'][2] == '*' else e['args']
+
     def is_served(ns):
         if ns in cfg['served']:
             return True
@@ -197,7 +215,10 @@ def _run(case, cfg, w):
         return ns in (cfg['namespaces'] or ['/'])
 
     def has_handlers(ns):
-        return ns in cfg['served']
+        # a catch-all (function or class based) handles every namespace that
+        # is served; it does not by itself make a namespace served
+        return ns in cfg['served'] or (bool(cfg.get('catchall')) and
+                                       is_served(ns))
 
     peers = {}
     live = {}         # p -> {ns: sid} per current transport (model)
@@ -229,7 +250,7 @@ def _run(case, cfg, w):
         if not has_handlers(c['ns']) or not cfg['disc_handler']:
             return
         runs = [e for e in w.rec.of('h_enter')
-                if e['label'][3] == 'disconnect' and e['args'][0] == c['sid']]
+                if e['label'][3] == 'disconnect' and nargs(e)[0] == c['sid']]
         if len(runs) != 1:
             v.add('disconnect_handler_count',
                   '%s: sid %s ns %s ended by %s: disconnect handler ran %d '
@@ -238,9 +259,10 @@ def _run(case, cfg, w):
                   'got%d' % min(len(runs), 2))
             return
         e = runs[0]
-        if e['label'][2] != c['ns']:
+        if e['label'][2] not in (c['ns'], '*') or (
+                e['label'][2] == '*' and e['args'][0] != c['ns']):
             v.add('disconnect_handler_wrong_namespace', (e['label'], c['ns']))
-        reason = e['args'][1] if len(e['args']) > 1 else None
+        reason = nargs(e)[1] if len(nargs(e)) > 1 else None
         if reason not in c.get('reasons', ()):
             v.add('disconnect_reason', '%s: sid %s got reason %r, causes in '
                   'progress allow %s' % (where, c['sid'], reason,
@@ -335,7 +357,7 @@ def _run(case, cfg, w):
                     v.add('connect_handler_count', '%s: ran %d times'
                           % (where, len(runs)), 'got%d' % min(len(runs), 2))
                 else:
-                    a = runs[0]['args']
+                    a = nargs(runs[0])
                     if auth:
                         if len(a) != 3 or not typed_eq(wire_norm(a[2]),
                                                        wire_norm(auth)):
@@ -346,7 +368,9 @@ def _run(case, cfg, w):
                         v.add('connect_handler_auth', '%s: handler got %s, '
                               'auth was %s' % (where, trepr(a[2:]),
                                                trepr(auth)))
-                    if runs[0]['label'][2] != ns:
+                    if runs[0]['label'][2] not in (ns, '*') or (
+                            runs[0]['label'][2] == '*' and
+                            runs[0]['args'][0] != ns):
                         v.add('connect_handler_wrong_namespace',
                               (runs[0]['label'], ns))
             eff = beh if has_handlers(ns) else 'accept'
@@ -362,8 +386,8 @@ def _run(case, cfg, w):
                     v.add('sid_not_fresh', '%s: sid %r was used before'
                           % (where, sid))
                 all_sids.add(sid)
-                if runs and runs[0]['args'][0] != sid:
-                    v.add('connect_handler_sid', (runs[0]['args'][0], sid))
+                if runs and nargs(runs[0])[0] != sid:
+                    v.add('connect_handler_sid', (nargs(runs[0])[0], sid))
                 live[p][ns] = sid
                 c = {'sid': sid, 'p': p, 'ns': ns, 'cid': cid, 'ended': False,
                      'peer': peer}
@@ -381,7 +405,7 @@ def _run(case, cfg, w):
                 else:
                     ok = kinds == ['CONNECT_ERROR'] and typed_eq(
                         answers[0].data, want)
-                    sid = runs[0]['args'][0] if runs else None
+                    sid = nargs(runs[0])[0] if runs else None
                 if not ok:
                     v.add('refusal_answer', '%s (%s): answered %s, expected '
                           'refusal carrying %s' % (where, eff, answers, want),
@@ -581,7 +605,7 @@ def _run(case, cfg, w):
         if not c['ended'] and cfg['disc_handler']:
             runs = [e for e in w.rec.of('h_enter')
                     if e['label'][3] == 'disconnect'
-                    and e['args'][0] == c['sid']]
+                    and nargs(e)[0] == c['sid']]
             if runs:
                 v.add('disconnect_handler_without_cause',
                       'sid %s [%s] never ended but handler ran %d times'
